@@ -253,6 +253,24 @@ pub fn cells(tier: Tier) -> Vec<CellPlan> {
     c.rounds = if q { 3 } else { 4 };
     c.junk_acks = true;
     v.push(plan(c, if q { 2 } else { 3 }, 2.0));
+
+    // acknowledgement timeout longer than any delay the bound allows (an acknowledgement is at
+    // most (1 + d) frames of 10 ms old), but short enough for the periodic clean-up to run several
+    // times inside the explored window: a late acknowledgement that is within the timeout
+    // still ends the re-sending
+    // (the clean-up runs every `timeout`; with five rounds a period of three or four frames puts
+    // one of its runs between the sending of a message and the late arrival of its
+    // acknowledgement, whatever the phase)
+    for (name, timeout, d) in [("timeout-30", 30, 2), ("timeout-40", 40, if q { 2 } else { 3 })] {
+        let mut c = mutation_cell(name);
+        c.cfg.timeout_ms = timeout;
+        c.cfg.dt_ms = 10;
+        c.init = vec![Op::Spawn(0, cells::M_A)];
+        c.alphabet = vec![Op::Nop, Op::Mut(0, TA)];
+        c.tick_choice = false;
+        c.rounds = 5;
+        v.push(plan(c, d, 2.0));
+    }
     v
 }
 
